@@ -3,7 +3,7 @@
    services/metrics.trades as plain definitions over exact rationals; harness/c16.py evaluates them in Coq against the real
    function on synthetic trade lists, and checks the ratio metrics and the equity samples on the implementation. *)
 From Coq Require Import ZArith QArith Qcanon List Bool Arith.
-From JV Require Import Base.Num Model.Indicators Model.Metrics Proofs.MetricsProofs.
+From JV Require Import Base.Num Model.Indicators Model.Metrics Proofs.MetricsProofs Proofs.MetricsSpec.
 Import ListNotations.
 Local Open Scope Qc_scope.
 
@@ -30,6 +30,39 @@ Proof. exact largest_win_bounds. Qed.
 Theorem C16_max_drawdown_never_positive : forall eq, Forall (fun x => 0 < x) eq -> max_drawdown eq <= 0.
 Proof. exact max_drawdown_never_positive. Qed.
 
+(* streaks follow from the PnL sequence: the reported winning (losing) streak is the length of the longest block of consecutive
+   winners (losers) - no block of consecutive winners is longer, and one has exactly that length; the current streak counts the
+   winners (+) or losers (-) at the end of the list *)
+Theorem C16_streaks_are_longest_blocks :
+  forall l, let '(cur, w, lo) := streaks l in
+  ((forall a seg b, l = a ++ seg ++ b -> forallb is_win seg = true -> (length seg <= w)%nat) /\
+   (exists a seg b, l = a ++ seg ++ b /\ forallb is_win seg = true /\ length seg = w)) /\
+  ((forall a seg b, l = a ++ seg ++ b -> forallb is_loss seg = true -> (length seg <= lo)%nat) /\
+   (exists a seg b, l = a ++ seg ++ b /\ forallb is_loss seg = true /\ length seg = lo)) /\
+  cur = (Z.of_nat (lead is_win (rev l)) - Z.of_nat (lead is_loss (rev l)))%Z.
+Proof. exact streaks_spec. Qed.
+Theorem C16_largest_win_is_a_winner :
+  forall l, wins l <> [] -> exists t, In t l /\ 0 < m_pnl t /\ m_pnl t = largest_win l.
+Proof. exact largest_win_attained. Qed.
+Theorem C16_largest_loss_spec :
+  forall l, (forall t, In t l -> m_pnl t < 0 -> largest_loss l <= m_pnl t) /\
+            (losses l <> [] -> exists t, In t l /\ m_pnl t < 0 /\ m_pnl t = largest_loss l).
+Proof. exact largest_loss_spec. Qed.
+(* the drawdown at sample k is equity_k over the largest equity among samples 0..k, minus one; the maximum drawdown is one of
+   these values and, for a positive equity series, lies in (-1, 0] *)
+Theorem C16_drawdown_is_distance_from_running_peak :
+  forall eq k, (k < length eq)%nat -> nth k (drawdowns eq) 0 = nth k eq 0 / qmaxl (hd 0 eq) (firstn (S k) eq) - 1.
+Proof. exact drawdown_nth. Qed.
+Theorem C16_max_drawdown_is_one_of_the_drawdowns : forall eq, eq <> [] -> In (max_drawdown eq) (drawdowns eq).
+Proof. exact max_drawdown_attained. Qed.
+Theorem C16_max_drawdown_range : forall eq, Forall (fun x => 0 < x) eq -> - (1) < max_drawdown eq /\ max_drawdown eq <= 0.
+Proof. exact max_drawdown_range. Qed.
+(* the premises are satisfiable and the counters are not trivially zero: W W L W W W E L L *)
+Example C16_streaks_example :
+  let t x := {| m_pnl := Q2Qc x; m_fee := 0; m_long := true |} in
+  streaks [t 1; t 2; t (-1); t 1; t 1; t 3; t 0; t (-2); t (-1)]%Q = ((-2)%Z, 3%nat, 2%nat).
+Proof. vm_compute. reflexivity. Qed.
+
 Print Assumptions C16_total_is_winners_losers_breakeven.
 Print Assumptions C16_net_profit_is_gross_profit_plus_gross_loss.
 Print Assumptions C16_longs_and_shorts_partition.
@@ -38,3 +71,9 @@ Print Assumptions C16_win_rate_spec.
 Print Assumptions C16_expectancy_is_net_profit_per_decided_trade.
 Print Assumptions C16_largest_win_bounds.
 Print Assumptions C16_max_drawdown_never_positive.
+Print Assumptions C16_streaks_are_longest_blocks.
+Print Assumptions C16_largest_win_is_a_winner.
+Print Assumptions C16_largest_loss_spec.
+Print Assumptions C16_drawdown_is_distance_from_running_peak.
+Print Assumptions C16_max_drawdown_is_one_of_the_drawdowns.
+Print Assumptions C16_max_drawdown_range.
